@@ -753,6 +753,7 @@ class Prover:
                     except Exception:
                         rpk = None
                     if rpk and rpk.get("reproduced"):
+                        rpk["seed"] = 101 + k
                         finding = self._classify(oname, pc, out, key)
                         self.rec(oname, "sat", time=round(time.time() - t0, 3), model=rpk.get("inputs"), replay=rpk, refinements=0, finding=finding, via="concrete-witness-after-abstract-sat")
                         return
@@ -933,6 +934,7 @@ class Prover:
                 n += 1
                 if rp.get("reproduced"):
                     rp.pop("inputs", None)
+                    rp["seed"] = 7 + k  # the inputs are regenerated from this seed on replay
                     self.rec("%s/%s" % (name, "-".join("%s%s" % kv for kv in sorted(params.items()) if isinstance(kv[1], int))), "sat", replay=rp, via="concrete-boundary-probe", model=None)
                     return
         self.probes = getattr(self, "probes", 0) + n
